@@ -15,6 +15,7 @@ pub mod c11;
 pub mod c12;
 pub mod c16;
 pub mod c17;
+pub mod c18;
 pub mod c19;
 pub mod srvchecks;
 
@@ -44,6 +45,7 @@ pub fn all() -> Vec<CheckDef> {
         srvchecks::def_c15(),
         c16::def(),
         c17::def(),
+        c18::def(),
         c19::def(),
     ]
 }
